@@ -149,8 +149,8 @@ def permute_systems(
     num_sys = len(perm)
 
     if dim is None:
-        x_tmp = input_mat_dims[0] ** (1 / num_sys) * np.ones(num_sys)
-        y_tmp = input_mat_dims[1] ** (1 / num_sys) * np.ones(num_sys)
+        x_tmp = np.round(input_mat_dims[0] ** (1 / num_sys)) * np.ones(num_sys)
+        y_tmp = np.round(input_mat_dims[1] ** (1 / num_sys)) * np.ones(num_sys)
         dim = np.array([x_tmp, y_tmp])
 
     if isinstance(dim, list):
